@@ -102,6 +102,7 @@ class Controller:
         self.gates = {i['line'] for part in ('ctor', 'run', 'stop') for i in program[part]}
         self.rt = None
         self.dumps = 0
+        self.dumps_at_stop = None      # number of dumps written when stop() returned
         self.runs = []
         FakeTimer.registry = []
         self.main = Controlled(self, self._main_body, 'main')
@@ -138,6 +139,10 @@ class Controller:
     def leaked(self):
         return [t for t in FakeTimer.registry[:-1] if t.state in ('armed', 'fresh')]
 
+    def note_stop(self):
+        if self.main.finished and self.dumps_at_stop is None:
+            self.dumps_at_stop = self.dumps
+
     def state(self):
         rt = self.rt
         c = self.cur()
@@ -172,7 +177,9 @@ class Controller:
     def do(self, choice):
         w = choice.split()
         if w[0] == 'main':
-            return self.main.finished or self.main.release_and_wait()
+            ok = self.main.finished or self.main.release_and_wait()
+            self.note_stop()
+            return ok
         if w[0] == 'run':
             k = int(w[1])
             if k >= len(self.runs) or self.runs[k].finished:
@@ -197,12 +204,13 @@ class Controller:
         while not self.main.finished and guard < 100:
             ok = self.main.release_and_wait() and ok
             guard += 1
+        self.note_stop()
         for r in self.runs:
             while not r.finished and guard < 400:
                 ok = r.release_and_wait() and ok
                 guard += 1
         live = [t.state for t in FakeTimer.registry if t.state in ('armed', 'fresh')]
-        return {'settled': ok, 'live_timers_after_stop': live, 'dumps': self.dumps,
+        return {'settled': ok, 'live_timers_after_stop': live, 'dumps': self.dumps, 'dumps_after_stop_returned': self.dumps - (self.dumps_at_stop or 0),
                 'errors': [x.error for x in [self.main] + self.runs if x.error]}
 
 
